@@ -91,11 +91,42 @@ def gen_opts(rng, model):
     return opts, tuple(names)
 
 
+def gen_skip_stress(rng, model):
+    """Trees of frequent plain Term leaves: long multi-block posting lists on every side, so that the
+    block-skipping paths of the binary matchers (skip_to_quality of And/Or/AndMaybe/Require) are driven hard."""
+    from whoosh import query
+
+    def term():
+        f = rng.choice(["t", "t", "t", "u"])
+        t = query.Term(f, rng.choice(model.VOCAB[:5]))
+        if rng.random() < 0.3:
+            t = t.with_boost(rng.choice([0.5, 2.0, 3.0]))
+        return t
+
+    def node(depth):
+        if depth == 0 or rng.random() < 0.35:
+            return term()
+        r = rng.random()
+        if r < 0.4:
+            return query.And([node(depth - 1) for _ in range(rng.randint(2, 3))])
+        if r < 0.65:
+            return query.Or([node(depth - 1) for _ in range(2)])
+        if r < 0.8:
+            return query.AndMaybe(node(depth - 1), node(depth - 1))
+        if r < 0.9:
+            return query.Require(node(depth - 1), node(depth - 1))
+        return query.AndNot(node(depth - 1), term())
+    q = node(rng.choice([1, 2, 2]))
+    if isinstance(q, query.Term):
+        q = query.And([q, term()])
+    return q
+
+
 def run(ctx):
     from vf import model
     from vf.props.c12 import gen_weighting
     model.check_analysis()
-    for idx in ctx.cases(quick=40, thorough=320):
+    for idx in ctx.cases(quick=48, thorough=320):
         rng = ctx.rng(idx)
         ctx.reseed_global(idx)
         h = model.gen_history(rng, ndocs=(30, 400) if rng.random() < 0.7 else (5, 40), boosts=rng.random() < 0.5, maxlen=8,
@@ -111,8 +142,12 @@ def run(ctx):
         ctx.count("c05.model.%s" % wname.split("(")[0])
         try:
             with built.ix.searcher(weighting=wobj) as s:
-                for _ in range(12):
-                    q = model.gen_query(rng, depth=rng.choice([1, 2, 2, 3]), scoring=True)
+                for _ in range(14):
+                    if rng.random() < 0.4:
+                        q = gen_skip_stress(rng, model)
+                        ctx.count("c05.skip_stress_queries")
+                    else:
+                        q = model.gen_query(rng, depth=rng.choice([1, 2, 2, 3]), scoring=True)
                     opts, optnames = gen_opts(rng, model)
                     k = rng.choice([1, 2, 3, 5, 10, 25])
                     w = dict(wb, query=repr(q), k=k, options=[(n, repr(opts[n])) for n in sorted(opts)])
